@@ -388,6 +388,15 @@ type LoggingTransport struct {
 	Writer    io.Writer
 }
 
+// SupportsProtocolVersion reports what the underlying transport reports:
+// logging does not change which protocol versions a transport can serve.
+func (t *LoggingTransport) SupportsProtocolVersion(version string) bool {
+	if pvs, ok := t.Transport.(ProtocolVersionSupporter); ok {
+		return pvs.SupportsProtocolVersion(version)
+	}
+	return true
+}
+
 // Connect connects the underlying transport, returning a [Connection] that writes
 // logs to the configured destination.
 func (t *LoggingTransport) Connect(ctx context.Context) (Connection, error) {
